@@ -2,6 +2,7 @@ package main
 
 import (
 	"fmt"
+	"go/token"
 	"sort"
 	"strings"
 
@@ -346,38 +347,7 @@ func runC17(c *Ctx) {
 	})
 
 	// ---- R-C17-CLEAR
-	c.Group("R-C17-CLEAR", "Metrics.Clear", func() {
-		fn := P.Fn("ristretto", "Metrics", "Clear")
-		L.Analysed(fname(fn))
-		tb := newTB(fn)
-		doNotUse := mconst("doNotUse")
-		var store *ssa.Call
-		for _, ci := range callsTo(fn, "atomic.StoreUint64") {
-			cl := ci.(*ssa.Call)
-			if Match("idx(idx(fld[all](p[0]),?i),?j)", tb.T(cl.Call.Args[0]), nil) && isConst(cl.Call.Args[1], "0") {
-				store = cl
-			}
-		}
-		if store == nil {
-			L.Fail("R-C17-CLEAR", "Metrics.Clear", "no atomic.StoreUint64(p.all[i][j], 0)", fn.Pos())
-			return
-		}
-		outer, inner := false, false
-		for _, b := range fn.Blocks {
-			iff := lastIf(b)
-			if iff == nil {
-				continue
-			}
-			if condPolarity(tb.T(iff.Cond), "lt(_,c["+doNotUse+"])", nil) != 0 {
-				outer = true
-			}
-			if condPolarity(tb.T(iff.Cond), "lt(_,call[len](idx(fld[all](p[0]),_)))", nil) != 0 {
-				inner = true
-			}
-		}
-		again, _ := reach(after(store), isInstr(store), nil, nil)
-		L.Check(outer && inner && again != nil, "R-C17-CLEAR", "Metrics.Clear", "every cell of every metric type (i < doNotUse, j over p.all[i]) is stored 0 atomically", "Metrics.Clear does not loop over all metric types and all their cells", store.Pos())
-	})
+	metricsClearRule(c, "R-C17-CLEAR")
 	c.Group("R-C17-CLEAR", "Cache.Clear", func() {
 		sub := &Ctx{L: newLedger("C17"), P: P, Tier: c.Tier}
 		sub.L.P = P
@@ -413,5 +383,107 @@ func runC17(c *Ctx) {
 		}
 		L.Check(okAdd && okGet && whole, "R-C17-CELLS", "Metrics.add/get", "add: atomic add of delta into p.all[t][idx]; get: atomic sum over all cells of p.all[t]",
 			fmt.Sprintf("add/get disagree on the cells (add ok:%v get ok:%v sums all:%v)", okAdd, okGet, whole), add.Pos())
+	})
+}
+
+// metricsClearRule: Metrics.Clear stores 0 atomically into every cell of every metric type
+// (outer bound doNotUse, inner over p.all[i]). Shared by C17 and C15.
+func metricsClearRule(c *Ctx, ruleID string) {
+	L, P := c.L, c.P
+	mconst := func(n string) string { return P.Const("ristretto", n).Value.Value.ExactString() }
+	c.Group(ruleID, "Metrics.Clear", func() {
+		fn := P.Fn("ristretto", "Metrics", "Clear")
+		L.Analysed(fname(fn))
+		tb := newTB(fn)
+		doNotUse := mconst("doNotUse")
+		var store *ssa.Call
+		for _, ci := range callsTo(fn, "atomic.StoreUint64") {
+			cl := ci.(*ssa.Call)
+			if Match("idx(idx(fld[all](p[0]),?i),?j)", tb.T(cl.Call.Args[0]), nil) && isConst(cl.Call.Args[1], "0") {
+				store = cl
+			}
+		}
+		if store == nil {
+			L.Fail(ruleID, "Metrics.Clear", "no atomic.StoreUint64(p.all[i][j], 0)", fn.Pos())
+			return
+		}
+		outer, inner := false, false
+		for _, b := range fn.Blocks {
+			iff := lastIf(b)
+			if iff == nil {
+				continue
+			}
+			envO := Env{}
+			if condPolarity(tb.T(iff.Cond), "lt(?i,c["+doNotUse+"])", envO) != 0 {
+				// the counter runs from 0 in steps of 1
+				if ph, isPhi := envO["i"].V.(*ssa.Phi); isPhi {
+					from0, step1 := false, true
+					for _, e := range ph.Edges {
+						if isConst(e, "0") {
+							from0 = true
+							continue
+						}
+						bo, isB := e.(*ssa.BinOp)
+						if !isB || bo.Op != token.ADD || !(bo.X == ssa.Value(ph) && isConst(bo.Y, "1") || bo.Y == ssa.Value(ph) && isConst(bo.X, "1")) {
+							step1 = false
+						}
+					}
+					outer = from0 && step1
+				}
+			}
+			if condPolarity(tb.T(iff.Cond), "lt(_,call[len](idx(fld[all](p[0]),_)))", nil) != 0 {
+				inner = true
+			}
+		}
+		again, _ := reach(after(store), isInstr(store), nil, nil)
+		L.Check(outer && inner && again != nil, ruleID, "Metrics.Clear", "every cell of every metric type (i from 0 while i < doNotUse, j over p.all[i]) is stored 0 atomically", "Metrics.Clear does not loop over all metric types (from 0 up to doNotUse) and all their cells", store.Pos())
+		// the life-expectancy histogram is replaced by a fresh one, under its mutex
+		lc := newLockCtx(P, "ristretto")
+		okLife := false
+		for _, st := range fieldStoresIn(fn, "Metrics", "life") {
+			if strings.HasPrefix(lc.tb(fn).T(st.Val).String(), "call[z.NewHistogramData](") && lc.At(st).HasClass("Metrics.mu", "W") {
+				okLife = true
+			}
+		}
+		L.Check(okLife, ruleID, "Metrics.Clear#life", "p.life replaced by a fresh histogram under p.mu on every Clear", "Metrics.Clear does not replace the life-expectancy histogram by a fresh one under p.mu", fn.Pos())
+	})
+	// the counters Clear zeroes are the ones the policy writes to: CollectMetrics wires both the policy and its
+	// cost accounting to the same *Metrics, and collectMetrics publishes that object as c.Metrics
+	c.Group(ruleID, "CollectMetrics", func() {
+		fn := P.Fn("ristretto", "defaultPolicy", "CollectMetrics")
+		L.Analysed(fname(fn))
+		tb := newTB(fn)
+		okP, okE := false, false
+		for _, st := range fieldStoresIn(fn, "defaultPolicy", "metrics") {
+			if tb.T(st.Val).String() == "p[1]" && tb.pointee(st.Addr).String() == "fld[metrics](p[0])" {
+				okP = true
+			}
+		}
+		for _, st := range fieldStoresIn(fn, "sampledLFU", "metrics") {
+			if tb.T(st.Val).String() == "p[1]" && tb.pointee(st.Addr).String() == "fld[metrics](fld[evict](p[0]))" {
+				okE = true
+			}
+		}
+		bad1, _ := mustPass(entryPos(fn), func(in ssa.Instruction) bool {
+			st, ok := in.(*ssa.Store)
+			return ok && tb.pointee(st.Addr).String() == "fld[metrics](fld[evict](p[0]))"
+		}, nil)
+		L.Check(okP && okE && bad1 == nil, ruleID, "CollectMetrics", "p.metrics and p.evict.metrics both set to the given *Metrics on every path", fmt.Sprintf("CollectMetrics does not wire both the policy (%v) and its cost accounting (%v) to the given *Metrics: evictions / cost changes would not be counted", okP, okE), fn.Pos())
+		cm := P.Fn("ristretto", "Cache", "collectMetrics")
+		tc := newTB(cm)
+		okC := false
+		for _, ci := range callsTo(cm, "defaultPolicy.CollectMetrics") {
+			t := tc.T(ci.(*ssa.Call))
+			if Match("call[defaultPolicy.CollectMetrics](fld[cachePolicy](p[0]),fld[Metrics](p[0]))", t, nil) || Match("call[defaultPolicy.CollectMetrics](fld[cachePolicy](p[0]),call[newMetrics])", t, nil) {
+				okC = true
+			}
+		}
+		okM := false
+		for _, st := range fieldStoresIn(cm, "Cache", "Metrics") {
+			if strings.HasPrefix(tc.T(st.Val).String(), "call[newMetrics]") {
+				okM = true
+			}
+		}
+		L.Check(okC && okM, ruleID, "Cache.collectMetrics", "c.Metrics = newMetrics(); cachePolicy.CollectMetrics(c.Metrics)", "collectMetrics does not publish one fresh *Metrics to both the cache and the policy", cm.Pos())
 	})
 }
